@@ -92,6 +92,38 @@ def _estimate_tree_depth(expr: Expression, max_depth: int = 500) -> int:
     return max_found
 
 
+def _power_degree(power: float) -> Optional[int]:
+    """Degree of x ** power: only non-negative integer powers are polynomial."""
+    p = float(power)
+    if not p.is_integer() or p < 0:
+        return None
+    return int(p)
+
+
+def _vector_element_degrees(vec: object) -> Optional[list[int]]:
+    """Degrees of the elements of a VectorVariable / VectorExpression (None if any is non-polynomial)."""
+    if hasattr(vec, "_variables"):
+        return [1] * len(vec._variables)  # type: ignore[attr-defined]
+    degs: list[int] = []
+    for sub_expr in vec._expressions:  # type: ignore[attr-defined]
+        d = compute_degree(sub_expr)
+        if d is None:
+            return None
+        degs.append(d)
+    return degs
+
+
+def _dot_product_degree(expr: object) -> Optional[int]:
+    """Degree of sum_i l_i * r_i from the degrees of the elements."""
+    left = _vector_element_degrees(expr.left)  # type: ignore[attr-defined]
+    if left is None:
+        return None
+    right = _vector_element_degrees(expr.right)  # type: ignore[attr-defined]
+    if right is None:
+        return None
+    return max((a + b for a, b in zip(left, right)), default=0)
+
+
 def _compute_degree_iterative(expr: Expression) -> Optional[int]:
     """Compute degree iteratively using explicit stack.
 
@@ -127,29 +159,24 @@ def _compute_degree_iterative(expr: Expression) -> Optional[int]:
             continue
 
         # Vector expressions - these have known degrees
-        if isinstance(node, LinearCombination):
-            result_stack.append(1)
-            continue
-        if isinstance(node, VectorSum):
-            result_stack.append(1)
+        if isinstance(node, (LinearCombination, VectorSum, QuadraticForm)):
+            # Flat nodes: same rules as the recursive implementation
+            result_stack.append(_compute_degree_impl(node))
             continue
         if isinstance(node, DotProduct):
-            result_stack.append(2)
-            continue
-        if isinstance(node, QuadraticForm):
-            result_stack.append(2)
+            result_stack.append(_dot_product_degree(node))
             continue
         if isinstance(node, VectorPowerSum):
-            # sum(x ** k) has degree k
-            result_stack.append(int(node.power))
+            # sum(x ** k) has degree k for non-negative integer k
+            result_stack.append(_power_degree(node.power))
             continue
         if isinstance(node, VectorUnarySum):
             # sum(sin(x)), sum(exp(x)) etc. are non-polynomial
             result_stack.append(None)
             continue
         if isinstance(node, ElementwisePower):
-            # x ** k has degree k
-            result_stack.append(int(node.power))
+            # x ** k has degree k for non-negative integer k
+            result_stack.append(_power_degree(node.power))
             continue
         if isinstance(node, ElementwiseUnary):
             # sin(x), exp(x) etc. are non-polynomial
@@ -294,21 +321,23 @@ def _compute_degree_impl(expr: Expression) -> Optional[int]:
             return max_deg
         return 1  # Default for unknown vector types
     if isinstance(expr, DotProduct):
-        # x · y could be quadratic if both are variables
-        # For now, return 2 (quadratic) as worst case
-        return 2
+        # sum_i l_i * r_i: degree from the element degrees (None if any is non-polynomial)
+        return _dot_product_degree(expr)
     if isinstance(expr, QuadraticForm):
-        # xᵀAx is always quadratic
-        return 2
+        # xᵀAx is quadratic in the elements of x
+        elem = _vector_element_degrees(expr.vector)
+        if elem is None:
+            return None
+        return 2 * max(elem, default=0)
     if isinstance(expr, VectorPowerSum):
-        # sum(x ** k) has degree k
-        return int(expr.power)
+        # sum(x ** k) has degree k for non-negative integer k
+        return _power_degree(expr.power)
     if isinstance(expr, VectorUnarySum):
         # sum(sin(x)), sum(exp(x)) etc. are non-polynomial
         return None
     if isinstance(expr, ElementwisePower):
-        # x ** k has degree k
-        return int(expr.power)
+        # x ** k has degree k for non-negative integer k
+        return _power_degree(expr.power)
     if isinstance(expr, ElementwiseUnary):
         # sin(x), exp(x) etc. are non-polynomial
         return None
